@@ -36,6 +36,7 @@ MODULES = {
         },
     },
     "glide": {"trace_spec": "Trace_Glide", "trace_cfg": "Trace_Glide.cfg", "graphs": {}},
+    "params": {"trace_spec": "Trace_Params", "trace_cfg": "Trace_Params.cfg", "graphs": {}},
     "lfo": {"trace_spec": "Trace_Lfo", "trace_cfg": "Trace_Lfo.cfg", "graphs": {}},
 }
 
@@ -125,6 +126,27 @@ PROPS.update({
             "rule": "distinct (sample rate, requested time) settings exercised; every logged sample evaluates the "
                     "one-step hull, range, approach and crossing predicates"},
     "C14": {"module": "glide", "mc": _G_MC, "traces": _G_TR},
+})
+
+PROPS.update({
+    "C20": {
+        "module": "params",
+        "mc": [("params", "MC_Params", "MC_Params.cfg", QT)],
+        "traces": [("params", "floats", QT), ("params", "ints", QT), ("quant", "hyst", QT), ("adsr", "extreme", QT)],
+        "rule": "all 2^32 f32 bit patterns of both conversions (run-length compressed over the order key), all 256 "
+                "note values, all 256 channel values x 16 channels",
+        "exhaustive": True,
+    },
+    "C17": {
+        "module": "all",
+        "mc": [("adsr-live", "MC_Adsr", "MC_Adsr_live.cfg", QT), ("adsr", "MC_Adsr", "MC_Adsr.cfg", T)],
+        "traces": [("adsr", "extreme", QT), ("adsr", "durations", QT), ("lfo", "extreme", QT), ("glide", "extreme", QT),
+                   ("ribbon", "extreme", QT), ("quant", "hyst", QT), ("quant", "sweep", QT), ("midi", "framing", QT),
+                   ("midi", "short", QT), ("params", "floats", QT), ("params", "ints", QT), ("glide", "sched", QT),
+                   ("adsr", "random", QT), ("lfo", "freq", QT), ("ribbon", "press", QT)],
+        "rule": "calls executed in the overflow-checks + debug-assertions build inside catch_unwind, over the argument "
+                "end points of all six modules; a panic is a logged event no trace action accepts",
+    },
 })
 
 HOOK_COMMITS = ["36838b7"]
